@@ -401,8 +401,11 @@ def parseTagRequest (db : TagDb) (write : Bool) (rid : Nat) (tag0 : Name) : Pars
                   | some i => if write then t ++ [91] ++ pyStrInt (i / 32) ++ [93] else t ++ nm "[0]"
                   | none => tag1
                 let total : Int := idx.getD 0 + elements
+                let words : Int := total / 32 + (if total % 32 ≠ 0 then 1 else 0)
+                -- the number of 32-bit words must fit the request's count field
+                if words > 65535 then fail (.text (nm "Array index out of range: " ++ pyStrInt (idx.getD 0))) else
                 { requestId := rid, requestTag := tag0, userTag := tag, plcTag := plc, bit := idx,
-                  elements := total / 32 + (if total % 32 ≠ 0 then 1 else 0), info := some info,
+                  elements := words, info := some info,
                   boolElements := if implicit || elements == 1 then none else some elements }
           else
             { requestId := rid, requestTag := tag0, userTag := tag, plcTag := tag1, bit := bit, elements := elements,
